@@ -450,6 +450,9 @@ func init() {
 				idx = append(idx, i)
 			}
 		}
+		if replay == "" {
+			c03MultiFile(meta)
+		}
 		meta.NCases = len(cases)
 		meta.Files, _ = writeCasesAt(outDir, "cases", "From KV Require Import Model.Base Model.Json Model.Codec Exec.C03Exec.", "c03case", "judge", terms, meta.Shard, 0)
 		meta.IndexMap = idx
